@@ -76,7 +76,7 @@ AsBuilt(en, cfg, i) ==
       per == [k \in 1..n |-> AsBuiltP(en, cfg, i.params[k])]
       \* (until the de-indenting repair EVERY embedded NumPy docstring was unreadable; what is left needs a return entry)
       wildNp == "numpydoc_embedded_unparsable" \in en /\ cfg.style = "numpydoc" /\ Embedded(cfg) /\ i.ret # NoRet
-      wildDot == "str_default_with_dot_truncated" \in en /\ Embedded(cfg) /\ cfg.edd /\ \E k \in 1..n : i.params[k].def = "str_dot"
+      wildDot == "str_default_with_dot_truncated" \in en /\ Embedded(cfg) /\ cfg.edd /\ \E k \in 1..n : i.params[k].def = "str_dot" /\ i.params[k].typ = "absent"   \* (typed: repaired)
       wildGr == "google_return_mangled" \in en /\ cfg.style = "google" /\ Embedded(cfg) /\ i.ret # NoRet
       dictRaise == "class_dict_no_default_raises" \in en /\ cfg.fmt \in {"class", "pydantic"}
                    /\ \E k \in 1..n : i.params[k].typ = "dict" /\ i.params[k].def = "absent"
